@@ -14,6 +14,18 @@ CHECKS = {
  "C06": ("bounded-exhaustive program-space enumeration x complete 8/16-bit input domain sweep (boundary set for wider reprs) on rustc-compiled derive output against rustc's discriminant rule",
          "For every enum of the bounded program space (all disabled subsets x <=k deviations of repr/discriminant/kind) from_repr is called with EVERY value of an 8/16-bit repr type (boundary values for wider types) and compared with the reference discriminant table, which is itself cross-checked against `v as R` / the enum tag for each program.",
          "trusted: rustc casts and repr(int) tag layout, derived Debug, vf-core R-disc; wider-than-16-bit reprs probed at boundaries only", "DESIGN.md §4 C06"),
+ "C01": ("bounded-exhaustive program-space (<=k deviations) x input-space (trie + case-flip/edit-1/padding/look-alike closures) enumeration on rustc-compiled derive output vs reference parser",
+         "Every enum definition within k deviations of the base (all pairs of EnumString features, non-overlapping spellings) is compiled and parsed on every string of the stated input closure through FromStr and TryFrom; each result (variant, payload, error) is compared with the reference parser, so both completeness and soundness hold on the whole bounded space.",
+         "trusted: rustc, derived Debug, generated vidx() match, vf-core R-parse/R-case/R-match; generics instantiated with u8/'static", "DESIGN.md §4 C01"),
+ "C12": ("complete product of case-insensitivity flags x bounded spelling deviations x all 2^k case flips and Unicode look-alike substitutions, on compiled derive output vs reference matcher folding A-Z only",
+         "The full flag product (enum flag x 4 variant flag forms per variant) is enumerated for N=2..3 and every case flip / look-alike / one-edit neighbour of every spelling is parsed; results equal the reference that folds only ASCII letters and only for covered variants.",
+         "trusted: rustc, derived Debug, vf-core R-match", "DESIGN.md §4 C12"),
+ "C16": ("bounded-exhaustive enumeration of twin programs (plain vs use_phf, compiled in one module) x the C01 input closure; differential + reference oracle; compile acceptance attributed per program",
+         "Every field-less enum of the bounded space is built twice, plain and with use_phf; a compile diagnostic is a violation, and for every input of the closure both parsers and the reference agree.",
+         "trusted: rustc, phf 0.11, derived Debug, vf-core R-parse", "DESIGN.md §4 C16"),
+ "C18": ("bounded-exhaustive program-space x input-space enumeration with a call-counting error function, on compiled derive output vs reference parser",
+         "For every enum of the bounded space built with and without parse_err_ty/parse_err_fn, every input of the closure is parsed; rejected inputs must return f(original input) with exactly one call of f, accepted inputs zero calls; the associated error types are checked at compile time.",
+         "trusted: rustc, derived Debug, the counting function vf_core::my_err, vf-core R-parse", "DESIGN.md §4 C18"),
 }
 PENDING = {}
 
